@@ -261,6 +261,70 @@ func checkC10(c c10Case) *evid.Fail {
 			}
 		}
 	}
+	// the caller's map object is edited in place between two renderings (the values rotated among the same keys, then
+	// one key taken out, then put back under another letter case), as the map passed to the call and as the default
+	// variables behind Evaluate(): every rendering uses the map as it is at the time
+	if len(c.Maps) > 0 && len(c.Maps[0]) > 0 {
+		for _, viaDefaults := range []bool{false, true} {
+			live := map[string]string{}
+			var keys []string
+			for k, v := range c.Maps[0] {
+				live[k] = v
+				keys = append(keys, k)
+			}
+			sort.Strings(keys)
+			obj := mustache.NewMustacheTemplate()
+			render := func() (string, error) {
+				if viaDefaults {
+					return obj.Evaluate()
+				}
+				return obj.EvaluateWithVariables(live)
+			}
+			var stage string
+			var got, wantS string
+			var rerr error
+			if g := guard(func() {
+				if viaDefaults {
+					obj.SetDefaultVariables(live)
+				}
+				if rerr = obj.SetTemplate(c.Template); rerr != nil {
+					return
+				}
+				render()
+				edits := []func(){
+					func() { // rotate the values
+						first := live[keys[0]]
+						for i := 0; i+1 < len(keys); i++ {
+							live[keys[i]] = live[keys[i+1]]
+						}
+						live[keys[len(keys)-1]] = first + "'"
+					},
+					func() { delete(live, keys[0]) },
+					func() { live[strings.ToUpper(keys[0])+""] = "back" },
+				}
+				for i, edit := range edits {
+					edit()
+					if i == 2 && strings.ToLower(strings.ToUpper(keys[0])) != strings.ToLower(keys[0]) {
+						return // a key whose case forms do not fold back is left alone
+					}
+					stage = []string{"values rotated", "a key removed", "the key back in upper case"}[i]
+					var want strings.Builder
+					mRender(c.Tree, live, &want)
+					wantS = want.String()
+					if got, rerr = render(); rerr != nil || got != wantS {
+						return
+					}
+				}
+				stage = ""
+			}); g != nil {
+				g.Msg = fmt.Sprintf("template %q, caller's map edited in place: %s", c.Template, g.Msg)
+				return g
+			}
+			if stage != "" {
+				return evid.F("stale-after-map-edit", "template %q parsed once (defaults=%v); after the caller edited its map in place (%s) it holds %s and the rendering is %q (%v), the reference semantics give %q", c.Template, viaDefaults, stage, sortedMap(live), got, rerr, wantS)
+			}
+		}
+	}
 	return nil
 }
 
